@@ -6,6 +6,12 @@ use crate::hostile;
 use crate::rng::Rng;
 use crate::trace::{Ev, ParserCfg, Trace};
 
+/// Thorough tier explores deeper worlds, not only more of them (the tier is part of the swarm
+/// configuration; workers inherit VERIF_TIER from the orchestrator).
+pub fn thorough() -> bool {
+    std::env::var("VERIF_TIER").map(|t| t == "thorough").unwrap_or(false)
+}
+
 fn base() -> WorldCfg {
     WorldCfg {
         exporters: vec![],
@@ -307,7 +313,8 @@ pub fn world_cfg(prop: &str, rng: &mut Rng) -> WorldCfg {
 fn add_truncations(trace: &mut Trace, rng: &mut Rng, stats: &mut GenStats) {
     let sweep_mode = rng.chance(1, 3);
     let mut out: Vec<Ev> = Vec::new();
-    let mut sweeps_left = 2;
+    let mut sweeps_left = if thorough() { 5 } else { 2 };
+    let sweep_cap = if thorough() { 2000 } else { 400 };
     for ev in std::mem::take(&mut trace.events) {
         if let Ev::Deliver { t, p, buf, parts, cut: None, faults } = &ev {
             let total: usize = parts.iter().sum();
@@ -315,7 +322,7 @@ fn add_truncations(trace: &mut Trace, rng: &mut Rng, stats: &mut GenStats) {
                 let last_len = *parts.last().unwrap();
                 let last_start = buf.len() - last_len;
                 let mut cuts: Vec<usize> = Vec::new();
-                if sweep_mode && sweeps_left > 0 && last_len <= 400 && rng.chance(1, 4) {
+                if sweep_mode && sweeps_left > 0 && last_len <= sweep_cap && rng.chance(1, 4) {
                     sweeps_left -= 1;
                     cuts.extend(last_start + 1..buf.len());
                     *stats.fired.entry("truncate_sweep_all_cut_points").or_insert(0) += 1;
@@ -400,7 +407,11 @@ fn add_scaling(trace: &mut Trace, rng: &mut Rng, stats: &mut GenStats) {
 
 pub fn gen_trace(prop: &str, run_seed: u64) -> (Trace, GenStats) {
     let mut rng = Rng::new(run_seed);
-    let cfg = world_cfg(prop, &mut rng);
+    let mut cfg = world_cfg(prop, &mut rng);
+    if thorough() && rng.chance(1, 4) {
+        // long histories: several times more emissions on the same parsers
+        cfg.emissions *= rng.urange(2, 5);
+    }
     let wrng = rng.fork();
     let (mut trace, mut stats) = World::new(&cfg, wrng).run(prop, run_seed);
     match prop {
